@@ -7,6 +7,8 @@ def run(ctx):
     th = ctx.thorough
     r = vlib.model_check(ctx, "mc/MC_C16.tla", "mc/MC_C16_thorough.cfg" if th else "mc/MC_C16_quick.cfg", workers=8, timeout=3000, heap="8g")
     vlib.model_check(ctx, "mc/MC_Positions.tla", "mc/MC_Positions_thorough.cfg" if th else "mc/MC_Positions_quick.cfg", workers=6, timeout=900)
+    # which lines the plain report prints, in how many groups (Merger.tla; beyond the statement of C16)
+    vlib.model_check(ctx, "mc/MC_Merger.tla", "mc/MC_Merger_thorough.cfg" if th else "mc/MC_Merger.cfg", workers=6, timeout=1800, keep_vec=False)
     rec = ctx.path("c16-records.ndjson")
     summ = vlib.agv_ok(ctx, ["drive", "c16", "--corpus", vlib.CORPUS, "--seed", ctx.seed, "--tier", ctx.tier, "--out", rec], timeout=3000)
     n, fails = vlib.validate_trace(ctx, "trace/Trace_C16.tla", "trace/Trace_C16.cfg", rec, timeout=3000)
@@ -22,6 +24,10 @@ def run(ctx):
             if vlib.report_failure(ctx, facts, {"record": slim, "reason": reason, "seed": ctx.seed, "tier": ctx.tier},
                                    "%s `sgv %s`: %s" % (case["id"], " ".join(case["args"])[:160], reason)):
                 bad.add(f["index"])
+    ext = [d for d in ctx.cov["drift"] if any(isinstance(w, str) and w.startswith("ext:") for w in (d.get("what") if isinstance(d.get("what"), list) else [d.get("what")]))]
+    for d in ext[:10]:
+        print("EXTENSION-FINDING plain report %s: %s" % (d.get("id"), d.get("what")), flush=True)
+    ctx.cov["plain_report_lines_judged_by_Merger"] = sum(1 for x in vlib.read_ndjson(rec) if x["style"] == "plain" and not x["scan"] and not x.get("rewrite"))
     recs = vlib.read_ndjson(rec)
     nt = set()
     for x in recs:
